@@ -501,3 +501,48 @@ def breakdown_descs(rng, count, types=("d",), gen=None, meas=2):
         kw.update(f)
         out.append(desc(**kw))
     return out
+
+
+# ------------------------------------------------------------------------------------------ C07: TLC-generated call sequences
+def krylov_descs(rng, tier, types=("d",)):
+    """Descriptors for harness/drv_krylov.cpp: every behaviour of spec/Krylov.tla up to the bounds of the tier (tools/krygen.py),
+    each executed on one matrix; matrices, scalar types, shift strategies and object kinds rotate over the sequences."""
+    import krygen
+    plan = [(1, 5, 6, None, 0), (2, 5, 6, None, 0), (1, 4, 8, 5000, 2), (2, 4, 8, 4000, 2)] if tier == "quick" else \
+           [(1, 5, 7, None, 0), (2, 5, 7, None, 0), (1, 4, 8, None, 0), (2, 4, 8, None, 0), (1, 6, 8, 60000, 1), (2, 6, 8, 60000, 1), (1, 3, 10, 40000, 3)]
+    out, infos = [], []
+    i = 0
+    for (kind, m, maxlen, cap, minv) in plan:
+        seqs, info = krygen.sequences(kind, m, maxlen)
+        if not info.get("ok"):
+            raise RuntimeError("MC_Krylov (kind %d, m %d, len %d) did not pass: %s" % (kind, m, maxlen, info.get("stdout_tail", "")))
+        if minv:
+            seqs = [x for x in seqs if x.count(",V") >= minv]
+        total = len(seqs)
+        if cap is not None and len(seqs) > cap:
+            seqs = rng.sample(seqs, cap)
+        info = dict(info, behaviours=total, executed=len(seqs))
+        infos.append(info)
+        for x in seqs:
+            i += 1
+            ty = types[i % len(types)]
+            n = m + 6 + (i * 7) % 17
+            sh = ("ritz", "rand", "far", "ritz")[i % 4]
+            if kind == 1:
+                k = "arn"
+                fam = (dict(fam="rand"), dict(fam="presc", ncp=(i // 3) % max(1, n // 2)), dict(fam="nonnormal", ncp=(i // 5) % max(1, n // 3)), dict(fam="tri"),
+                       dict(fam="rand"), dict(fam="blockdiag", blk=3 + i % 3))[(i // 4) % 6]
+            else:
+                k = ("lan", "clan", "lan", "lanB")[(i // 4) % 4]
+                if k == "clan":
+                    fam = (dict(fam="rand"), dict(fam="presc", spec="lin"), dict(fam="blockdiag", blk=2 + i % 3))[(i // 16) % 3]
+                else:
+                    fam = (dict(fam="rand"), dict(fam="presc", spec="lin"), dict(fam="presc", spec="clust", nc=2 + i % 3, w=(3, 5, 8)[i % 3]),
+                           dict(fam="presc", spec="rep", mult=2 + i % 2), dict(fam="sprand", dens=30), dict(fam="lap"),
+                           dict(fam="graded", span=(10, 20)[i % 2]), dict(fam="blockdiag", blk=2 + i % 3))[(i // 16) % 8]
+            kw = dict(mode="kry", kind=k, ty=ty, n=n, m=m, seed=1 + (i * 2654435761) % 999983, sh=sh, ops=x)
+            kw.update(fam)
+            if k == "lanB":
+                kw["lgc"] = (2, 4, 6)[i % 3]
+            out.append(desc(**kw))
+    return out, infos
